@@ -184,6 +184,46 @@ func callsIn(f *core.Func) []*ast.CallExpr {
 	return out
 }
 
+// returnedToken is the expression a `return` of a token scanner delivers: the
+// result itself, or - when the result is a call that is handed exactly one
+// argument (`return l.tokEnd(WORD)`) - that argument.
+func returnedToken(r *ast.ReturnStmt) ast.Expr {
+	if len(r.Results) != 1 {
+		return nil
+	}
+	e := ast.Unparen(r.Results[0])
+	if call, ok := e.(*ast.CallExpr); ok && len(call.Args) == 1 {
+		if _, isConv := call.Fun.(*ast.ArrayType); !isConv {
+			if id, isID := call.Fun.(*ast.Ident); !isID || (id.Name != "int" && id.Name != "rune") {
+				return ast.Unparen(call.Args[0])
+			}
+		}
+	}
+	return e
+}
+
+// isEOFMessageTest: e is a call (strings.Contains, HasSuffix, ...) or an
+// equality whose constant operand mentions the parser's "unexpected EOF".
+func isEOFMessageTest(info *types.Info, e ast.Expr) bool {
+	mentions := func(x ast.Expr) bool {
+		s, ok := constStr(info, x)
+		return ok && strings.Contains(s, "unexpected EOF")
+	}
+	switch x := ast.Unparen(e).(type) {
+	case *ast.CallExpr:
+		for _, a := range x.Args {
+			if mentions(a) {
+				return true
+			}
+		}
+	case *ast.BinaryExpr:
+		if x.Op == token.EQL {
+			return mentions(x.X) || mentions(x.Y)
+		}
+	}
+	return false
+}
+
 // ---------------------------------------------------------------------------
 // CC7: a syntax error always cancels the lexer.
 
@@ -343,7 +383,9 @@ func ruleCC7() Rule {
 				for _, r := range exits {
 					eofPath := false
 					for _, gd := range guardsOf(c.P, r, nil) {
-						if gd.pos && strings.Contains(exprStr(gd.cond), "unexpected EOF") {
+						// the guard itself is the test of the message (guardsOf has split conjunctions);
+						// inside a disjunction the return is taken for other messages too
+						if gd.pos && isEOFMessageTest(info, gd.cond) {
 							eofPath = true
 						}
 					}
@@ -401,7 +443,11 @@ func ruleTK(parts ...string) Rule {
 				n := 0
 				raw.OwnNodes(func(x ast.Node) bool {
 					r, ok := x.(*ast.ReturnStmt)
-					if !ok || len(r.Results) != 1 || exprStr(r.Results[0]) != "IO_NUMBER" {
+					if !ok || len(r.Results) != 1 {
+						return true
+					}
+					// `return IO_NUMBER`, or the token handed through a helper: `return l.tokEnd(IO_NUMBER)`
+					if isIO := exprStr(returnedToken(r)) == "IO_NUMBER"; !isIO {
 						return true
 					}
 					n++
@@ -427,6 +473,12 @@ func ruleTK(parts ...string) Rule {
 							if ifs, ok := blk.List[idx-1].(*ast.IfStmt); ok && ifs.Init == nil && ifs.Else == nil {
 								digits = c.notDigitSearch(info, ifs)
 							}
+						}
+					}
+					// ... or as a condition around the return
+					for _, gd := range guardsOf(c.P, r, nil) {
+						if c.allDigitsGuard(info, gd) {
+							digits = true
 						}
 					}
 					if one && lit && digits {
@@ -519,7 +571,7 @@ func ruleTK(parts ...string) Rule {
 func (c *Ctx) notDigitSearch(info *types.Info, ifs *ast.IfStmt) bool {
 	returnsWord := false
 	for _, st := range ifs.Body.List {
-		if rt, ok := st.(*ast.ReturnStmt); ok && len(rt.Results) == 1 && exprStr(rt.Results[0]) == "WORD" {
+		if rt, ok := st.(*ast.ReturnStmt); ok && len(rt.Results) == 1 && exprStr(returnedToken(rt)) == "WORD" {
 			returnsWord = true
 		}
 	}
@@ -537,6 +589,36 @@ func (c *Ctx) notDigitSearch(info *types.Info, ifs *ast.IfStmt) bool {
 	} else if cl, ok := cond.(*ast.CallExpr); ok && calleeName(info, cl) == "strings.ContainsFunc" {
 		call = cl
 	}
+	return c.notDigitPredicate(info, call)
+}
+
+// allDigitsGuard recognises a condition that holds only when no character of
+// the searched string is outside '0'..'9': `strings.IndexFunc(s, notDigit) ==
+// -1` (or < 0) known true, or `!= -1` / `>= 0` / strings.ContainsFunc known
+// false.
+func (c *Ctx) allDigitsGuard(info *types.Info, gd guard) bool {
+	cond := ast.Unparen(gd.cond)
+	if be, ok := cond.(*ast.BinaryExpr); ok {
+		cl, isCall := ast.Unparen(be.X).(*ast.CallExpr)
+		v, isConst := constInt(info, be.Y)
+		if !isCall || !isConst || calleeName(info, cl) != "strings.IndexFunc" {
+			return false
+		}
+		none := (be.Op == token.EQL && v == -1) || (be.Op == token.LSS && v == 0)
+		some := (be.Op == token.NEQ && v == -1) || (be.Op == token.GEQ && v == 0) || (be.Op == token.GTR && v == -1)
+		if (gd.pos && none) || (!gd.pos && some) {
+			return c.notDigitPredicate(info, cl)
+		}
+		return false
+	}
+	if cl, ok := cond.(*ast.CallExpr); ok && !gd.pos && calleeName(info, cl) == "strings.ContainsFunc" {
+		return c.notDigitPredicate(info, cl)
+	}
+	return false
+}
+
+// notDigitPredicate: the second argument of call is `r < '0' || r > '9'`.
+func (c *Ctx) notDigitPredicate(info *types.Info, call *ast.CallExpr) bool {
 	if call == nil || len(call.Args) != 2 {
 		return false
 	}
@@ -660,7 +742,7 @@ func asciiDigitLoop(info *types.Info, rs *ast.RangeStmt) bool {
 		}
 		returnsWord := false
 		for _, s := range ifs.Body.List {
-			if rt, isRet := s.(*ast.ReturnStmt); isRet && len(rt.Results) == 1 && exprStr(rt.Results[0]) == "WORD" {
+			if rt, isRet := s.(*ast.ReturnStmt); isRet && len(rt.Results) == 1 && exprStr(returnedToken(rt)) == "WORD" {
 				returnsWord = true
 			}
 		}
@@ -2308,6 +2390,130 @@ func ruleLBK() Rule {
 					}
 				}
 			}
+			// HD8c: the same for a newline consumed anywhere else in the function (an inner
+			// loop that scans a comment through the newline that ends it): between a point
+			// where the rune just read is known to be a newline and the next read, or the
+			// successful return, the pending here-documents are asked for
+			{
+				isNL := func(e ast.Expr) bool {
+					v, ok := constInt(info, e)
+					return ok && v == '\n'
+				}
+				condNL := func(e ast.Expr) bool {
+					for _, cj := range conjuncts(e) {
+						if be, ok := cj.(*ast.BinaryExpr); ok && be.Op == token.EQL && (isNL(be.X) || isNL(be.Y)) {
+							return true
+						}
+					}
+					return false
+				}
+				starts := map[ast.Node]bool{}
+				empty := token.NoPos
+				// go/cfg keeps no node for a break: a clause that only breaks is marked at the
+				// statement the break leads to
+				afterBreak := func(br *ast.BranchStmt) ast.Stmt {
+					var target ast.Node
+					for x := c.P.Parent(br); x != nil && target == nil; x = c.P.Parent(x) {
+						switch y := x.(type) {
+						case *ast.ForStmt, *ast.RangeStmt, *ast.SwitchStmt, *ast.TypeSwitchStmt, *ast.SelectStmt:
+							if br.Label == nil {
+								target = y
+							} else if ls, ok := c.P.Parent(y).(*ast.LabeledStmt); ok && ls.Label.Name == br.Label.Name {
+								target = ls
+							}
+						case *ast.FuncDecl, *ast.FuncLit:
+							return nil
+						}
+					}
+					if target == nil {
+						return nil
+					}
+					var list []ast.Stmt
+					switch blk := c.P.Parent(target).(type) {
+					case *ast.BlockStmt:
+						list = blk.List
+					case *ast.CaseClause:
+						list = blk.Body
+					}
+					for i, st := range list {
+						if ast.Node(st) == target && i+1 < len(list) {
+							return list[i+1]
+						}
+					}
+					return nil
+				}
+				mark := func(body []ast.Stmt, at token.Pos) {
+					if len(body) == 0 {
+						empty = at
+						return
+					}
+					if br, ok := body[0].(*ast.BranchStmt); ok {
+						if nx := afterBreak(br); br.Tok == token.BREAK && nx != nil {
+							starts[nx] = true
+						} else {
+							empty = at
+						}
+						return
+					}
+					starts[body[0]] = true
+				}
+				f.OwnNodes(func(n ast.Node) bool {
+					switch x := n.(type) {
+					case *ast.CaseClause:
+						for _, e := range x.List {
+							if isNL(e) || condNL(e) {
+								mark(x.Body, x.Pos())
+							}
+						}
+					case *ast.IfStmt:
+						if condNL(x.Cond) {
+							mark(x.Body.List, x.Pos())
+						}
+					}
+					return true
+				})
+				readFn := c.fn("parser.(*lexer).read")
+				reader := c.heredocReader(nil)
+				asked := core.NewFlow(f).MustSeen(true, func(n ast.Node) bool {
+					call, ok := n.(*ast.CallExpr)
+					if !ok {
+						return false
+					}
+					fo := core.StaticCallee(info, call)
+					if fo == nil {
+						return false
+					}
+					g := c.P.FuncOf(fo)
+					return g != nil && (g == exists || g == reader)
+				}, func(n ast.Node) bool { return starts[n] })
+				bad := token.NoPos
+				f.OwnNodes(func(n ast.Node) bool {
+					switch x := n.(type) {
+					case *ast.ReturnStmt:
+						if len(x.Results) == 1 {
+							if tv, ok := info.Types[x.Results[0]]; ok && tv.Value != nil && tv.Value.String() == "true" && !asked[x] {
+								bad = x.Pos()
+							}
+						}
+					case *ast.CallExpr:
+						if fo := core.StaticCallee(info, x); fo != nil && readFn != nil && c.P.FuncOf(fo) == readFn && !asked[x] {
+							bad = x.Pos()
+						}
+					}
+					return true
+				})
+				key := f.Name + "|every newline consumed asks for pending here-documents"
+				switch {
+				case empty != token.NoPos:
+					rr.Unk(f, key, empty, "a newline is recognised in a clause without statements; where the pending here-documents are asked for is not decided")
+				case len(starts) == 0:
+					rr.Unk(f, key, f.Pos(), "no place where the rune read is compared with a newline")
+				case bad == token.NoPos:
+					rr.OK(f, key, nl.cc.Pos(), "asked", fmt.Sprintf("%d place(s) know the rune to be a newline; each is followed by the test before the next read or the successful return", len(starts)))
+				default:
+					rr.Bad(f, key, bad, "a newline has been consumed (a comment scanned through the newline that ends it) and linebreak reads on or returns without asking whether a here-document is announced: the body lines are parsed as commands (`cat <<E | # c` + newline + body)")
+				}
+			}
 			// LB2
 			key = f.Name + "|blanks before the newline"
 			sp, tab := sw.clauseFor(' '), sw.clauseFor('\t')
@@ -3659,7 +3865,7 @@ func ruleBQ1() Rule {
 				if !ok || len(ret.Results) != 1 {
 					return true
 				}
-				if v, ok := constInt(info, ret.Results[0]); !ok || v != ')' {
+				if v, ok := constInt(info, returnedToken(ret)); !ok || v != ')' {
 					return true
 				}
 				cc := enclosingCase(c.P, ret)
